@@ -1103,6 +1103,10 @@ def solve_obligation(o, timeout_ms=10000, want_model=True):
     if o.status == 'discharged':
         return o
     t0 = time.time()
+    if _mentions_bytes(o) and _deaccess_retry(o, 3000):
+        o.time = time.time() - t0
+        o.solver = 'z3-' + z3.get_version_string()
+        return o
     s = z3.Solver()
     s.set('timeout', timeout_ms)
     s.add(*o.pc)
@@ -1128,7 +1132,146 @@ def solve_obligation(o, timeout_ms=10000, want_model=True):
         o.status = 'unknown'
         o.note = s.reason_unknown()
         o.smt2 = s.to_smt2()
+        if _deaccess_retry(o, timeout_ms):
+            o.time = time.time() - t0
     return o
+
+
+def candidate_model(o, timeout_ms=10000):
+    """for an `unknown` obligation: a model of the query with the quantified facts of the path condition
+    dropped.  Only a *candidate* counterexample - it counts for nothing unless the native replay on the real
+    code confirms it (driver)."""
+    def strip(f):
+        if z3.is_quantifier(f):
+            return None
+        if z3.is_and(f):
+            parts = [strip(c) for c in f.children()]
+            parts = [p for p in parts if p is not None]
+            return z3.And(*parts) if parts else None
+        return f if not _has_quant(f) else None
+    s = z3.Solver()
+    s.set('timeout', timeout_ms)
+    for f in o.pc:
+        g = strip(f)
+        if g is not None:
+            s.add(g)
+    s.add(z3.Not(o.goal))
+    if s.check() != z3.sat:
+        return None
+    m = s.model()
+    model = {}
+    for name, term in o.inputs.items():
+        try:
+            model[name] = val_to_py(m.eval(term, model_completion=True))
+        except Exception as e:
+            model[name] = f'<unprintable: {e}>'
+    return model
+
+
+def _has_quant(f, seen=None):
+    seen = set() if seen is None else seen
+    stack = [f]
+    while stack:
+        t = stack.pop()
+        if t.get_id() in seen:
+            continue
+        seen.add(t.get_id())
+        if z3.is_quantifier(t):
+            return True
+        if z3.is_app(t):
+            stack.extend(t.children())
+    return False
+
+
+_SEQ_ACCESSORS = ('by', 's', 'titems', 'litems')
+
+
+def _deaccess_retry(o, timeout_ms):
+    """z3's sequence solver gives up on queries whose sequence terms are datatype accessor applications
+    (by(x), s(x), ...) that it decides at once over plain constants.  Retry with every such application
+    replaced by a fresh constant c plus `is_K(x) => x == K(c)` and pairwise congruence; the rewritten
+    query is implied-unsat-equivalent in the direction used (unsat here => unsat of the original), so
+    only `discharged` is taken from it."""
+    forms = list(o.pc) + [z3.Not(o.goal)]
+    extra = []
+    groups = {}
+    for _round in range(200):
+        target = _innermost_accessor(forms + extra)
+        if target is None:
+            break
+        acc = target.decl().name()
+        arg = target.arg(0)
+        c = z3.FreshConst(target.sort(), 'acc')
+        K = getattr(V, {'by': 'BytesV', 's': 'StrV', 'titems': 'TupleV', 'litems': 'ListV'}[acc])
+        isK = getattr(V, 'is_' + K.name())
+        forms = [z3.substitute(f, (target, c)) for f in forms]
+        extra = [z3.substitute(f, (target, c)) for f in extra]
+        extra.append(z3.Implies(isK(arg), arg == K(c)))
+        for (arg2, c2) in groups.setdefault(acc, []):
+            extra.append(z3.Implies(arg == arg2, c == c2))
+        groups[acc].append((arg, c))
+    else:
+        return False
+    if not groups:
+        return False
+    s = z3.Solver()
+    s.set('timeout', timeout_ms)
+    s.add(*forms)
+    s.add(*extra)
+    if s.check() == z3.unsat:
+        o.status = 'discharged'
+        o.note = 'after replacing sequence accessor terms by constants'
+        return True
+    return False
+
+
+def _mentions_bytes(o):
+    seen = set()
+    stack = [o.goal] + list(o.pc)
+    while stack:
+        t = stack.pop()
+        if t.get_id() in seen:
+            continue
+        seen.add(t.get_id())
+        if z3.is_quantifier(t):
+            stack.append(t.body())
+        elif z3.is_app(t):
+            if t.decl().kind() == z3.Z3_OP_DT_ACCESSOR and t.decl().name() == 'by':
+                return True
+            stack.extend(t.children())
+    return False
+
+
+def _innermost_accessor(forms):
+    seen = set()
+    best = [None]
+
+    def walk(t):
+        """-> True if t contains a sequence accessor application"""
+        if z3.is_quantifier(t):
+            return walk(t.body())
+        if not z3.is_app(t) or best[0] is not None:
+            return False
+        if t.get_id() in seen:
+            return False
+        seen.add(t.get_id())
+        inner = False
+        for ch in t.children():
+            if walk(ch):
+                inner = True
+            if best[0] is not None:
+                return True
+        if t.decl().kind() == z3.Z3_OP_DT_ACCESSOR and t.decl().name() in _SEQ_ACCESSORS and not inner \
+                and not has_free_vars(t):
+            if t.arg(0).decl().kind() != z3.Z3_OP_DT_CONSTRUCTOR:
+                best[0] = t
+            return True
+        return inner
+    for f in forms:
+        walk(f)
+        if best[0] is not None:
+            return best[0]
+    return None
 
 
 def has_free_vars(e, depth=0, seen=None):
